@@ -296,6 +296,67 @@ def handleImg (ws : List String) : Option String := do
     | first :: _ => if shown.all (· == first) then some s!"{first}*{shown.length}" else none
   | _ => none
 
+/-! ### A single lit matte surface: RayCaster and RecursiveRayTracer (MaxDepth 0) pixels -/
+
+structure LitLight where
+  light : PointLight Float
+  shadowKey : String
+  shadow : Option Float
+
+def parseLitLights : Nat → List String → Option (List LitLight × List String)
+  | 0, ws => some ([], ws)
+  | k + 1, ws => do
+    let (lo, ws) ← parseV3 floatOfHex ws
+    let (lc, ws) ← parseV3 floatOfHex ws
+    match ws with
+    | q :: ws =>
+      let (so, ws) ← parseV3 floatOfHex ws
+      let (sd, ws) ← parseV3 floatOfHex ws
+      match ws with
+      | sf :: ss :: ws =>
+        let ss ← floatOfHex ss
+        let (rest, ws) ← parseLitLights k ws
+        some (⟨⟨lo, lc, q == "1"⟩, showV3 hexOfFloat so ++ " " ++ showV3 hexOfFloat sd,
+               if sf == "1" then some ss else none⟩ :: rest, ws)
+      | _ => none
+    | _ => none
+
+/-- `litf o d found t n amb em rho eps N k lights…` → `raycasterPixel rtPixel`.
+The scene oracle answers the primary ray and the shadow rays with what the real primitive said; a ray
+the model traces that the harness did not anticipate makes the answer `unknown-ray`. -/
+def handleLitF (ws : List String) : Option String := do
+  let (o, ws) ← parseV3 floatOfHex ws
+  let (d, ws) ← parseV3 floatOfHex ws
+  match ws with
+  | found :: t :: ws =>
+    let t ← floatOfHex t
+    let (n, ws) ← parseV3 floatOfHex ws
+    let (amb, ws) ← parseV3 floatOfHex ws
+    let (em, ws) ← parseV3 floatOfHex ws
+    let (rho, ws) ← parseV3 floatOfHex ws
+    match ws with
+    | eps :: nS :: k :: ws =>
+      let eps ← floatOfHex eps; let nS ← nS.toNat?; let k ← k.toNat?
+      let (ls, rest) ← parseLitLights k ws
+      if !rest.isEmpty then none
+      let m : Mat Float Nat := ⟨em, amb, fun _ _ _ => rho, fun g nn _ => (nn, g), fun _ _ _ => 1⟩
+      let key (r : Ray Float) := showV3 hexOfFloat r.origin ++ " " ++ showV3 hexOfFloat r.dir
+      let primary : Ray Float := ⟨o, d⟩
+      -- an unknown ray is answered with a NaN-scale hit so that it shows up in the output
+      let scene : Ray Float → Option (Hit Float × Mat Float Nat) := fun r =>
+        if key r == key primary then (if found == "1" then some (⟨t, n, 0⟩, m) else none)
+        else match ls.find? (fun l => l.shadowKey == key r) with
+          | some l => l.shadow.map fun s => (⟨s, V3.zero, 0⟩, m)
+          | none => some (⟨0.0 / 0.0, V3.zero, 0⟩, m)
+      let lights := ls.map (·.light)
+      let rcPix := rayCasterPixel scene Float.sqrt lights primary
+      let sample : Nat → V3 Float × Nat := fun g =>
+        recurse scene Float.sqrt Float.abs 0 eps lights 0 true g primary ⟨1, 1, 1⟩
+      let rtPix := (estimateColor Float.ofNat ⟨nS, 0, false⟩ (fun _ _ _ => false) sample 0).1
+      some s!"{showV3 hexOfFloat rcPix} {showV3 hexOfFloat rtPix}"
+    | _ => none
+  | _ => none
+
 def handleAll (ws : List String) : Option String :=
   match ws with
   | "estf" :: rest => handleEstF rest
@@ -312,6 +373,7 @@ def handleAll (ws : List String) : Option String :=
   | "bvhf" :: rest => handleJoinF false rest
   | "xprim" :: _how :: _kind :: rest => some (" ".intercalate rest)
   | "img" :: rest => handleImg rest
+  | "litf" :: rest => handleLitF rest
   -- `dircam fov dir min max`: the specification (`directional_camera_contains`) is a constant
   | ["dircam", _, _, _, _, _, _, _, _, _, _] => some "contained"
   | _ => none
